@@ -361,7 +361,7 @@ def check(prop, cfg, tier, seed, replay=None):
 
     fails, mism, agree, kn = classify_results(corr["results"])
     searched = 0
-    if not fails and (mism or corr_broken or not pr["ok"]) and status == "ok" and pr["classifier_ok"] and not replay:
+    if not fails and (mism or corr_broken or not pr["ok"]) and status == "ok" and pr["classifier_ok"] and not replay and not os.environ.get("OKV_NO_SEARCH"):
         # 3.4 directed search: spend the budget looking for an input on which the property fails
         budget = cfg.get("search_s", 240 if tier == "quick" else 900)
         s = seed
